@@ -92,7 +92,10 @@ def run(ctx):
     ctx.check(("BitAnd c:%d)" % mask) in txt, "LANG-FIT", "tag() masks the language with LANG_MASK", "", "tag() does not search the language by `code & %d`: %s" % (mask, txt[:200]), f_tag.loc(), fn=f_tag.name)
     ctx.check(("Shr c:%d)" % shift) in txt, "LANG-FIT", "tag() shifts the sub-language by SUBLANG_SHIFT", "", "tag() does not search the sub-language by `code >> %d`: %s" % (shift, txt[:200]), f_tag.loc(), fn=f_tag.name)
     # both searches key on tuple field 0 (the code): closures passed read .0
-    for c in f_tag.closures:
+    from ..lib import lifted_closures as _lc
+    key_closures = [L.fn for L in _lc(prog, f_tag, S) if L.call_block is not None and "binary_search" in (f_tag.blocks[L.call_block]["term"].get("callee") or "")]
+    ctx.floor("LANG-FIT", "key closures of tag()'s binary searches", len(key_closures), 2 if bs else 0)
+    for c in key_closures:
         reads = [s for b in c.blocks for s in b["stmts"] if s["lhs"]["l"] == 0]
         v = Sym(prog, c).val({"k": "copy", "pl": {"l": 0, "p": []}}) if False else None
         r = [Sym(prog, c).val(s["rhs"]["ops"][0]) for s in reads if s["rhs"]["rv"] == "use"]
@@ -192,6 +195,13 @@ def run(ctx):
                 und_ok.append(len(fs) == 1 and fs[0][1] in (("==", 1), ("notin", (0,))))
             if re.fullmatch(r"[*&]*k:internal::language::LANGUAGES\[(?:(?!\]\.2\[).)*\]\.1", v):
                 bare.append(len(fs) == 2 and fs[0][1] in (("==", 0), ("notin", (1,))) and fs[1][1] in (("==", 1), ("notin", (0,))))
+    BARE = r"[*&]*k:internal::language::LANGUAGES\[(?:(?!\]\.2\[).)*\]\.1"
+    for b_, t_ in calls(prog, f_tag, r"Result::<T, E>::(map_or|unwrap_or)$"):
+        # `second_search.map_or(lang_tag, |i| sublangs[i].1)`: the default (search failed) is the bare language tag
+        a_ = [St.val(x) for x in t_["args"]]
+        fs = [(e, tr) for (e, tr, g) in St.bool_facts_at(b_) if "binary_search" in e]
+        if len(a_) >= 2 and re.fullmatch(r"call@\d+:.*binary_search\w*", a_[0]) and re.fullmatch(BARE, a_[1]):
+            bare.append(len(fs) == 1 and fs[0][1] in (("==", 0), ("notin", (1,))))
     ctx.check(bool(und_ok) and all(und_ok) and any(bare), "LANG-FALLBACK", "tag(): unknown sub-language falls back to the bare language", "",
               "tag() does not return the language's own tag when only the sub-language is unknown (\"und\" under %s, bare-language result under unknown sub-language: %s): "
               "a code such as 0x3c09 reads \"und\" instead of \"en\"" % (und_ok, bare), f_tag.loc(), fn=f_tag.name, key="LANG-FALLBACK|tag-bare")
